@@ -115,6 +115,8 @@ def gen_elem(rng, depth, w, recs, parent, xml, max_depth=4, max_children=3):
             name = rng.choice(['script', 'style'])        # a self-closed special element has no body to skip
         elif rng.random() < 0.08:
             name = rng.choice([name.upper(), name.capitalize()])
+        elif xml and kind in ('pair', 'self') and rng.random() < 0.06:
+            name = rng.choice(['Style', 'SCRIPT', 'Script', 'STYLE'])       # XML names are case-sensitive: KML's <Style> is an ordinary element with children
     os_, _ = w.add('<' + name)
     if kind == 'tscript':
         # script with a non-JS type is NOT special: its body is ordinary markup
